@@ -290,10 +290,10 @@ void* _GD_Alloc(DIRFILE* D, gd_type_t type, size_t n)
   dtrace("%p, 0x%x, %" PRIuSIZE, D, type, n);
   if (type == GD_NULL)
     ; /* just return the NULL */
-  else if (n * GD_SIZE(type) == 0)
+  else if (GD_SIZE(type) == 0)
     _GD_InternalError(D);
-  else
-    ptr = _GD_Malloc(D, n * GD_SIZE(type));
+  else /* a request for zero samples is legitimate (gd_getdata of 0 samples) */
+    ptr = _GD_Malloc(D, n ? n * GD_SIZE(type) : 1);
 
   dreturn("%p", ptr);
   return ptr;
